@@ -82,6 +82,7 @@ def gen_channel(rng, bnodes):
     ch["rebind"] = rng.random() < 0.3            # prefix labels re-bound in the middle of a document
     ch["magic_names"] = rng.random() < 0.3       # file names containing '[' and ']'
     ch["comments"] = rng.choice([0, 0, 1, 3])    # comment and blank lines between statements
+    ch["explicit_string_dt"] = rng.random() < 0.3    # "abc"^^xsd:string instead of "abc": the same RDF term
     if tr == "files" and rng.random() < 0.3:
         ch["special_member"] = rng.randrange(ch["parts"])
     if tr in ("gz", "xz") and rng.random() < 0.35:
@@ -178,10 +179,11 @@ def build_channel(sim, triples, ch, tag):
             return any(t[0] == "i" and not t[1].startswith("http") for tr in b for t in tr)
         parts = [b for b in parts if not dirty(b)] + [b for b in parts if dirty(b)]
         based = [not dirty(b) for b in parts]
-    docs = [_doc(b, fmt, ch.get("turtle_grouped", True), salt=(i if ch.get("rotate_labels") else 0),
-                 base=(gen.EX if based[i] else None), full_nonhttp=ch.get("full_nonhttp", False),
-                 rebind=ch.get("rebind", False), comments=ch.get("comments", 0))
-            for i, b in enumerate(parts)]
+    with gen.explicit_string_dt(ch.get("explicit_string_dt", False)):
+        docs = [_doc(b, fmt, ch.get("turtle_grouped", True), salt=(i if ch.get("rotate_labels") else 0),
+                     base=(gen.EX if based[i] else None), full_nonhttp=ch.get("full_nonhttp", False),
+                     rebind=ch.get("rebind", False), comments=ch.get("comments", 0))
+                for i, b in enumerate(parts)]
     ext = EXT[fmt]
     kw = {"input_format": fmt}
     if tr == "raw":
